@@ -324,6 +324,21 @@ Fixpoint val_text (fuel : nat) (h : list cell) (v : val) : option (list Z) :=
 (* ---------- value.DuplicateValue ---------- *)
 Inductive dres := DOk (v : val) (s : state) | DFuel.
 
+(* left-to-right traversal threading the state *)
+Fixpoint map_state {A B} (f : state -> A -> option (B * state)) (st : state) (l : list A) : option (list B * state) :=
+  match l with
+  | [] => Some ([], st)
+  | x :: tl =>
+    match f st x with
+    | Some (y, s1) =>
+      match map_state f s1 tl with
+      | Some (ys, s2) => Some (y :: ys, s2)
+      | None => None
+      end
+    | None => None
+    end
+  end.
+
 Fixpoint dup (fuel : nat) (st : state) (v : val) : dres :=
   match fuel with
   | O => DFuel
@@ -332,15 +347,7 @@ Fixpoint dup (fuel : nat) (st : state) (v : val) : dres :=
     | VList l =>
       match hget st l with
       | Some (CList items) =>
-        let fix go (its : list val) (st : state) (acc : list val) : option (list val * state) :=
-            match its with
-            | [] => Some (rev acc, st)
-            | i :: tl => match dup k st i with
-                         | DOk i' st' => go tl st' (i' :: acc)
-                         | DFuel => None
-                         end
-            end in
-        match go items st [] with
+        match map_state (fun s x => match dup k s x with DOk x' s' => Some (x', s') | DFuel => None end) st items with
         | Some (items', st') => let (l', st'') := alloc st' (CList items') in DOk (VList l') st''
         | None => DFuel
         end
@@ -349,15 +356,7 @@ Fixpoint dup (fuel : nat) (st : state) (v : val) : dres :=
     | VDict l =>
       match hget st l with
       | Some (CDict kvs) =>
-        let fix go (its : list (str * val)) (st : state) (acc : list (str * val)) : option (list (str * val) * state) :=
-            match its with
-            | [] => Some (rev acc, st)
-            | (key, i) :: tl => match dup k st i with
-                              | DOk i' st' => go tl st' ((key, i') :: acc)
-                              | DFuel => None
-                              end
-            end in
-        match go kvs st [] with
+        match map_state (fun s kv => match dup k s (snd kv) with DOk x' s' => Some ((fst kv, x'), s') | DFuel => None end) st kvs with
         | Some (kvs', st') => let (l', st'') := alloc st' (CDict kvs') in DOk (VDict l') st''
         | None => DFuel
         end
